@@ -138,6 +138,8 @@ func VerifAtTopLevel(s *State, out io.Writer) string {
 		return "output-writer-was-replaced"
 	case object.VerifNumReg(s.rootEnv) != 0:
 		return "root-scope-still-holds-registers"
+	case s.macroDepth != 0:
+		return "macro-nesting-count-is-not-zero"
 	}
 	return ""
 }
